@@ -31,6 +31,7 @@ type VApp struct {
 	restores  [][]byte
 	states    []state.State
 	failNext  bool
+	failState bool // the state-change handler reports an error (the node's state must change all the same)
 	onCommit  func(d *Delivered)
 }
 
@@ -95,6 +96,9 @@ func (a *VApp) Restore(snapshot []byte) error {
 
 func (a *VApp) OnStateChanged(s state.State) error {
 	a.states = append(a.states, s)
+	if a.failState {
+		return fmt.Errorf("vapp: injected state-change handler failure")
+	}
 	return nil
 }
 
